@@ -1,5 +1,5 @@
 From Coq Require Extraction.
 From Coq Require Import ExtrOcamlBasic.
-From NV Require Import Base.Witness Base.Decimal Sam.Fields Sam.Record Sam.Header Sam.BamHeader Sam.Lazy Sam.LazyData Sam.BamAgree Sam.File.
+From NV Require Import Base.Witness Base.Decimal Sam.Fields Sam.Record Sam.Header Sam.BamHeader Sam.Lazy Sam.LazyData Sam.BamAgree Sam.File Sam.LazyGet.
 From NV Require Bam.Record Bam.Encode.
-Extraction "model.ml" nv_types_witness write_record parse_line fmt_dec parse_dec write_header read_header write_bam_header read_bam_header lazy_view lazy_read slice_from bound lazy_data lz_arr_elems lz_elem_i lazy_convert to_bam_d Bam.Encode.encode Sam.File.write_file Sam.File.read_file.
+Extraction "model.ml" nv_types_witness write_record parse_line fmt_dec parse_dec write_header read_header write_bam_header read_bam_header lazy_view lazy_read slice_from bound lazy_data lz_arr_elems lz_elem_i lazy_convert to_bam_d Bam.Encode.encode Sam.File.write_file Sam.File.read_file lazy_get header_write_read.
